@@ -14,13 +14,22 @@ have an out profile and the public entries it leaves are compared, in order, wit
 (D) the real `get_root_hook_results` / `reevaluate_cache` of real two- and three-roll passes (hosts answering with tags,
 memos set to sentinels, gap / roll contour changed between consecutive `reevaluate_cache` calls) vs `SolveGen.evalParts`,
 `resultParts`, `cacheEffects`, `SolveBody.usedGeometries`; the translator's resolution orders vs `cls.__mro__`.
+(E) nested hook evaluations - implementations taking `cycle` that read the same / another hook on ANOTHER instance, lines,
+rings, two hooks - on throw-away hook hosts through the real `Hook.__get__` / `HookFunction.__call__`: value or
+AttributeError and the re-entrancy marks every hook function holds after each top-level read vs `SolveGen.runReads`
+(`SolveMarks.read` with the policy generated from `HookFunction.__init__` / `__call__`); on real sequences whose model
+implementations read their own hook on neighbouring units / profiles the marks after every completed solve vs the model's
+"none" (`solve_leaves_no_mark`).
 The oracle is written from the property text and only looks at what the real calls did.
 
 What is a violation: more iterations than the limit; a quiet end although the last two iterates differ by more than the
 precision / nothing to compare with - on the vector the unit compares (`quiet-but-iterates-differ`) AND on the persisted
 values read independently of it from every hook host of the unit (`quiet-but-persisted-value-moves`: every registered root
 hook on the unit, its profiles, its roll, as held after each loop body); a warning without a returned profile; fresh vs
-fresh vs deep copy not bit-identical;
+fresh vs deep copy not bit-identical; an identical fresh sequence solved AFTER other sequences had been solved in the same
+process (same registered implementations) not bit-identical to the first one (`fresh-after-other-differs-from-fresh`), the
+sequence solved again after them raising / not within WITHIN_K x precision of its previous solve
+(`resolve-after-other-raises`, `resolve-after-other-not-within-precision`);
 the same sequence solved again with the same input raising or differing by more than WITHIN_K x precision; after an
 aborted solve: a re-entrancy mark left, the retry (cause removed) raising or differing from a fresh sequence by more than
 WITHIN_K x precision.  What is only counted (`info:*`): a used sequence solved with ANOTHER input vs a fresh one - the
@@ -30,6 +39,7 @@ import copy
 import json
 import logging
 import math
+import random
 import re
 
 from ..translate import c05_loop
@@ -56,7 +66,15 @@ RULE = ("(A) scripted units: throw-away Unit subclasses whose get_root_hook_resu
         "hooks of every host are read as a user reads them; (C) histories of init_solve calls with generated incoming entries (root-hook and other names, values "
         "changing / vanishing / new) on a plain unit, a transport and a roll pass, interleaved with writes to / deletions "
         "from the out profile; (D) get_root_hook_results / reevaluate_cache of real two-/three-roll passes with tagged hosts, "
-        "sentinel memos and a gap / roll contour changing between loop bodies. non-trivial = some unit needed >= 2 iterations after its first one / a scripted history "
+        "sentinel memos and a gap / roll contour changing between loop bodies; (E) nested hook evaluations on throw-away hook "
+        "hosts (1-2 hooks, 2-5 instances; lines towards the next / previous instance, rings, hook 0 asking hook 1, random asks; "
+        "explicit values, trylast defaults; 1-9 top-level reads, short reads before and after long ones); in (B) 3 of 10 "
+        "sequences get model implementations taking `cycle` that read their OWN hook on a neighbouring object - a transport "
+        "without ambient temperature asks the next / previous transport (rows of 1-4 transports, each with or without a value of "
+        "its own; the cooled workpiece temperature a persisted result), a profile without grain size asks the profile before it "
+        "(out <- in <- previous out / the parent's in profile; refined by passes, persisted) - and 1-2 OTHER sequences (other "
+        "rows of transports, other objects holding values, a unit dropped) that are solved in between: fresh after other vs "
+        "fresh, solve again after other vs the previous solve, marks after every completed solve. non-trivial = some unit needed >= 2 iterations after its first one / a scripted history "
         "with >= 2 vectors / >= 2 init_solve calls; distinct by the rounded case description.")
 ASSUMPTIONS = [
     "what one loop body does to the unit (caches, sub-units, hook evaluation) is a parameter of the model (step); the "
@@ -73,6 +91,10 @@ ASSUMPTIONS = [
     "what the hosts' hook functions compute stays a parameter (`vals`, `build`)",
     "non-numeric persisted results (the cross-section polygon, classifiers) take no part in the stop test of the code and are "
     "not demanded by the oracle's 'all persisted values' clause either (agreement 'within a relative precision' is read for numbers)",
+    "nested hook evaluations are modelled from clean caches with at most one nested read per implementation (SolveMarks.Impl); "
+    "which hook functions of a real loop body nest on which instances is not derived from the source - the correspondence runs "
+    "generated worlds through the real Hook.__get__ / HookFunction.__call__, the oracle solves real sequences with "
+    "neighbour-reading implementations before and after other sequences",
     "bit-reproducibility of numpy/GEOS floating point (fresh vs fresh vs deep copy) is measured, not proved",
     "IEEE: a comparison with a NaN operand is false (the model treats the scalar NaN of a fresh unit symbolically); checked "
     "by evaluating the generated comparison over Float on NaN / inf / 0 operands against numpy",
@@ -363,6 +385,8 @@ def build_unit(spec, label, kw0):
         for k in ("duration", "length"):
             if k in spec:
                 kw[k] = spec[k]
+        if spec.get("env") is not None:
+            kw["environment_temperature"] = spec["env"]      # given explicitly; otherwise left to the hook implementations
         if t == "pipe":
             return CoolingPipe(label=label, inner_radius=0.05, coolant_volume_flux=1e-3, **kw)
         return Transport(label=label, **kw)
@@ -395,6 +419,8 @@ def build_in_profile(spec, without=None, extra=None):
               specific_heat_capacity=690, strain=spec.get("strain", 0), length=spec.get("length", 1.0))
     if spec.get("flow_stress") is not None:
         kw["flow_stress"] = spec["flow_stress"]
+    if spec.get("grain_size") is not None:
+        kw["grain_size"] = spec["grain_size"]
     kw.pop(without, None)
     kw.update(extra or {})
     s, kind = spec["size"], spec["kind"]
@@ -417,6 +443,7 @@ class Registered:
         self.roots = []
         self.saved_cfg = None
         self.counts = {}
+        self.cyclers = []             # the registered hook functions that read their own hook on other instances
 
     def __enter__(self):
         from pyroll.core import RollPass, ThreeRollPass, BaseRollPass, Transport, Unit, Config, root_hooks
@@ -489,6 +516,63 @@ class Registered:
                     self._add(BaseRollPass.OutProfile.temperature, chilled)
                     root_hooks.append(BaseRollPass.OutProfile.temperature)      # (handed-over values are explicit: only a
                     self.roots.append(BaseRollPass.OutProfile.temperature)      # root hook is evaluated in spite of them)
+            if "neigh" in m:
+                # Model implementations that take the `cycle` argument and, while running on one object, read the SAME hook on a
+                # NEIGHBOURING object (which may have to ask its own neighbour, ...): nested evaluations of one hook function
+                # on other instances, as deep as the line of objects without a value of their own is long.
+                c = m["neigh"]
+                if c["kind"] == "ambient":
+                    def ambient(self, cycle, c=c):
+                        # a transport without an ambient temperature of its own lies in the same section as its neighbour
+                        if cycle:
+                            return None
+                        try:
+                            nb = self.next if c["dir"] == "next" else self.prev
+                        except (IndexError, ValueError):
+                            return None
+                        if not isinstance(nb, Transport):
+                            return None
+                        return c["a"] * nb.environment_temperature + c["b"]
+                    self._add(Transport.environment_temperature, ambient)
+                    self.cyclers.append(self.hfs[-1][1])
+
+                    def cooled(self, c=c):
+                        # ... and the workpiece approaches it (a persisted result: registered as root hook)
+                        tr = self.unit
+                        if not tr.has_value("duration"):
+                            return None
+                        amb = tr.environment_temperature
+                        return amb + (tr.in_profile.temperature - amb) * math.exp(-c["rate"] * tr.duration)
+                    self._add(Transport.OutProfile.temperature, cooled)
+                    root_hooks.append(Transport.OutProfile.temperature)
+                    self.roots.append(Transport.OutProfile.temperature)
+                else:
+                    def grain(self, cycle, c=c):
+                        # a profile without a grain size: the out profile of a unit takes that of the in profile (refined by a
+                        # roll pass), an in profile that of the profile leaving the unit before, the first unit of a nested
+                        # sequence / disk element that of the profile entering its parent
+                        if cycle:
+                            return None
+                        u = self.unit
+                        if u.out_profile is self:
+                            v = u.in_profile.grain_size
+                            return c["a"] * v + c["b"] if isinstance(u, BaseRollPass) else v
+                        try:
+                            before = u.prev.out_profile
+                        except (IndexError, ValueError):
+                            par = u.parent
+                            before = par.in_profile if par is not None else None
+                        if before is None or before is self:
+                            return None
+                        return before.grain_size
+                    self._add(Unit.Profile.grain_size, grain)
+                    self.cyclers.append(self.hfs[-1][1])
+
+                    def grain_default(self, c=c):
+                        return c["root"]
+                    self._add(Unit.Profile.grain_size, grain_default, trylast=True)
+                    root_hooks.append(Unit.OutProfile.grain_size)
+                    self.roots.append(Unit.OutProfile.grain_size)
             if self.fault is not None:
                 # a pass-through implementation (returns None = "ask the next one") in front of every candidate hook,
                 # counting its calls; the armed one raises at its k-th call
@@ -692,7 +776,88 @@ def gen_case(rng):
         elif rng.random() < 0.3:
             si = {"strain": 0.2, "length": 1.7}
         case["second_input"] = si
+    # model implementations reading their own hook on NEIGHBOURING units / profiles (nested evaluations of one hook function
+    # on other instances, 1-4 levels), and OTHER sequences solved in the same process with the same implementations in between.
+    # (Decided by a generator derived from the case generated so far - i.e. from ctx.rng - so that the stream of cases is the
+    # one it was before these features existed, with some of them extended.)
+    rng2 = random.Random("c05-neigh:" + json.dumps(case, sort_keys=True))
+    if rng2.random() < 0.3 and not alone:
+        gen_neigh(rng2, case)
+    elif rng2.random() < 0.1 and not alone:
+        # (whatever the models: another sequence - the line without its last unit, or the line itself - solved in between)
+        o = copy.deepcopy(units[:-1] if len(units) > 1 and rng2.random() < 0.6 else units)
+        case["others"] = [o if any(u["type"] in ("pass", "seq") for u in o) else copy.deepcopy(units)]
     return case
+
+
+def _all_transport_lists(units):
+    """every list (the top level, nested sequences) with the positions of its transports"""
+    yield units
+    for u in units:
+        if u["type"] == "seq":
+            yield from _all_transport_lists(u["units"])
+
+
+def _stretch_transports(rng, units, p_more, p_env, end=None):
+    """rows of 1-4 transports, each with or without an ambient temperature of its own; `end` = "next" / "prev": (mostly) only
+    the last / first transport of a row holds one, so that the others read through the whole row"""
+    for lst in _all_transport_lists(units):
+        i = 0
+        while i < len(lst):
+            if lst[i]["type"] in ("transport", "pipe"):
+                n = 0
+                while rng.random() < p_more and n < 3:
+                    lst.insert(i + 1, {"type": "transport", "disks": rng.choice([0, 0, 0, 2]),
+                                       "duration": rng.choice([1, 0.5, 2.5, round(rng.uniform(0.1, 5), 3)])})
+                    n += 1
+                row = lst[i:i + n + 1]
+                through = end is not None and rng.random() < 0.7
+                for j, t in enumerate(row):
+                    t.pop("env", None)
+                    holder = j == (len(row) - 1 if end == "next" else 0)
+                    if (through and holder) or (not through and rng.random() < p_env) or (through and rng.random() < 0.1):
+                        t["env"] = rng.choice([900.0, 600.0, 350.0, round(rng.uniform(300, 1000), 1)])
+                i += n
+            i += 1
+
+
+def gen_neigh(rng, case):
+    units = case["units"]
+    if rng.random() < 0.65:
+        d = rng.choice(["next", "next", "next", "prev"])
+        case["models"]["neigh"] = {"kind": "ambient", "dir": d,
+                                   "a": 1.0, "b": rng.choice([0.0, 0.0, -20.0, 15.0]), "rate": rng.choice([0.05, 0.02, 0.2])}
+        if not any(u["type"] in ("transport", "pipe") for lst in _all_transport_lists(units) for u in lst):
+            units.insert(rng.randrange(0, len(units) + 1), gen_transport(rng, False))
+        _stretch_transports(rng, units, rng.choice([0.35, 0.6]), 0.4, d)
+    else:
+        case["models"]["neigh"] = {"kind": "grain", "a": rng.choice([0.8, 0.9, 0.5]), "b": rng.choice([0.0, 1e-6]),
+                                   "root": rng.choice([50e-6, 20e-6])}
+        if rng.random() < 0.5:
+            case["in"]["grain_size"] = rng.choice([80e-6, 120e-6])
+    # other programs of the same process: variations of the line (other lengths of the rows of transports, other objects
+    # holding a value of their own, units dropped, a value the incoming profile no longer carries)
+    others = []
+    for _ in range(rng.choice([1, 1, 2])):
+        o = copy.deepcopy(units)
+        if case["models"]["neigh"]["kind"] == "ambient":
+            for lst in _all_transport_lists(o):        # back to single transports, then stretched anew
+                k = 1
+                while k < len(lst):
+                    if lst[k]["type"] == "transport" and lst[k - 1]["type"] in ("transport", "pipe") and "length" not in lst[k]:
+                        del lst[k]
+                    else:
+                        k += 1
+            _stretch_transports(rng, o, rng.choice([0.3, 0.7]), rng.choice([0.2, 0.5]), case["models"]["neigh"]["dir"])
+        else:
+            if len(o) > 1 and rng.random() < 0.5:
+                del o[-1]
+                if not any(u["type"] in ("pass", "seq") for u in o):
+                    o = copy.deepcopy(units)
+            if "grain_size" in case["in"] and rng.random() < 0.7:
+                o = {"units": o, "in_without": "grain_size"}
+        others.append(o)
+    case["others"] = others
 
 
 # ---------------------------------------------------------------------------------------------------------------
@@ -1100,6 +1265,134 @@ def _probe_remembering(three, pass_too=True):
 
 
 # ---------------------------------------------------------------------------------------------------------------
+# (E) nested hook evaluations on throw-away hook hosts: the real `Hook.__get__` / `HookFunction.__call__` vs
+#     `SolveGen.runReads` (results and the re-entrancy marks left after every top-level read)
+# ---------------------------------------------------------------------------------------------------------------
+
+MARKS_CORPUS = [
+    # a line of three: 0 asks 1, 1 asks 2, 2 holds the value; then the one-level line 1 -> 2; then 0 again
+    {"nh": 1, "ni": 3, "cells": [[{"e": None, "impl": ["a", 0, 1, 1, 0], "d": 293}, {"e": None, "impl": ["a", 0, 2, 1, 0], "d": 293},
+                                  {"e": 900, "impl": ["p"], "d": None}]], "queries": [[0, 0], [0, 1], [0, 2], [0, 0]]},
+    # a genuine cycle 0 -> 1 -> 0, cut by the flag; 0 has a default, 1 has none (AttributeError)
+    {"nh": 1, "ni": 2, "cells": [[{"e": None, "impl": ["a", 0, 1, 2, 1], "d": 293}, {"e": None, "impl": ["a", 0, 0, 1, 0], "d": None}]],
+     "queries": [[0, 0], [0, 1], [0, 0]]},
+    # two hooks: hook 0 asks hook 1 on the SAME instance, hook 1 asks hook 1 on the neighbour
+    {"nh": 2, "ni": 3, "cells": [[{"e": None, "impl": ["a", 1, 0, 1, 0], "d": None}, {"e": None, "impl": ["a", 1, 1, 1, 5], "d": 4},
+                                  {"e": None, "impl": ["p"], "d": None}],
+                                 [{"e": None, "impl": ["a", 1, 1, 3, 0], "d": None}, {"e": None, "impl": ["a", 1, 2, 1, -2], "d": None},
+                                  {"e": None, "impl": ["v", 7], "d": None}]],
+     "queries": [[0, 0], [0, 1], [0, 2], [1, 0], [0, 0]]},
+]
+
+
+def gen_marks_world(rng):
+    nh = rng.choice([1, 1, 2])
+    ni = rng.randrange(2, 6)
+    shape = rng.choice(["line", "line", "line-back", "ring", "cross", "random"])
+    cells = []
+    for g in range(nh):
+        row = []
+        for k in range(ni):
+            a, b = rng.choice([1, 1, 2, -1]), rng.choice([0, 0, 1, -3])
+            if shape == "line":
+                impl = ["a", g, k + 1, a, b] if k + 1 < ni else rng.choice([["p"], ["v", rng.randrange(1, 50)]])
+            elif shape == "line-back":
+                impl = ["a", g, k - 1, a, b] if k > 0 else rng.choice([["p"], ["v", rng.randrange(1, 50)]])
+            elif shape == "ring":
+                impl = ["a", g, (k + 1) % ni, a, b]
+            elif shape == "cross":
+                impl = ["a", (g + 1) % nh, rng.choice([k, (k + 1) % ni]), a, b] if rng.random() < 0.7 else ["v", rng.randrange(1, 50)]
+            else:
+                r = rng.random()
+                impl = ["p"] if r < 0.15 else ["v", rng.randrange(1, 50)] if r < 0.3 else ["a", rng.randrange(nh), rng.randrange(ni), a, b]
+            e = None
+            if rng.random() < (0.25 if shape != "ring" else 0.1) or (shape == "line" and k == ni - 1 and rng.random() < 0.7) \
+                    or (shape == "line-back" and k == 0 and rng.random() < 0.7):
+                e = rng.choice([900, 600, 0, -5, rng.randrange(100, 999)])
+            row.append({"e": e, "impl": impl, "d": rng.choice([None, None, 293, rng.randrange(1, 99)])})
+        cells.append(row)
+    queries = [[rng.randrange(nh), rng.randrange(ni)] for _ in range(rng.randrange(1, 7))]
+    if shape in ("line", "line-back") and rng.random() < 0.7:
+        # short reads first / last, the long ones in between
+        far = [0, 0] if shape == "line" else [0, ni - 1]
+        near = [0, ni - 2] if shape == "line" else [0, 1]
+        queries = [near, far] + queries + [near]
+    return {"nh": nh, "ni": ni, "cells": cells, "queries": queries, "shape": shape}
+
+
+def _marks_line(w):
+    def opt(x):
+        return "_" if x is None else str(x)
+    cs = []
+    for row in w["cells"]:
+        for c in row:
+            i = c["impl"]
+            impl = "p" if i[0] == "p" else f"v{i[1]}" if i[0] == "v" else "a" + ",".join(str(x) for x in i[1:])
+            cs.append(f"{opt(c['e'])}/{impl}/{opt(c['d'])}")
+    return f"marks {w['nh']} {w['ni']} {';'.join(cs)} {','.join(f'{g}.{k}' for g, k in w['queries'])}"
+
+
+def run_marks_world(ctx, w, lines, pending):
+    """the world `w` on real hook hosts: one throw-away HookHost subclass with `nh` hooks, `ni` instances, per hook ONE
+    implementation taking `cycle` (returns None when told so; else a value / None / a * <hook g' of instance k'> + b) and a
+    `trylast` default; every query is a top-level attribute read from clean caches.  Recorded: value or AttributeError, and
+    the marks every hook function holds afterwards."""
+    from pyroll.core.hooks import Hook, HookHost
+    nh, ni = w["nh"], w["ni"]
+    cls = type("C05Host", (HookHost,), {f"h{g}": Hook[float]() for g in range(nh)})
+    insts = [cls() for _ in range(ni)]
+    index = {id(x): k for k, x in enumerate(insts)}
+    hfs = []
+    for g in range(nh):
+        def fn(self, cycle, g=g):
+            if cycle:
+                return None
+            i = w["cells"][g][index[id(self)]]["impl"]
+            if i[0] == "p":
+                return None
+            if i[0] == "v":
+                return i[1]
+            return i[3] * getattr(insts[i[2]], f"h{i[1]}") + i[4]
+
+        def dflt(self, g=g):
+            return w["cells"][g][index[id(self)]]["d"]
+        hook = getattr(cls, f"h{g}")
+        hook.add_function(dflt, trylast=True)
+        hfs.append(hook.add_function(fn))
+        for k, x in enumerate(insts):
+            if w["cells"][g][k]["e"] is not None:
+                setattr(x, f"h{g}", w["cells"][g][k]["e"])
+    got = []
+    depth = 0
+    for g, k in w["queries"]:
+        try:
+            r = str(getattr(insts[k], f"h{g}"))
+        except AttributeError as e:
+            if not _from_pyroll(e):
+                raise
+            r = "E"
+        marks = []
+        for g2, hf in enumerate(hfs):
+            m = _marks_of(hf)
+            if m is None:
+                ctx.tie_breaks.append("harness: HookFunction keeps its re-entrancy marks somewhere else than `_active_instances`")
+                return
+            marks += [(g2, index.get(key, 99)) for key in m]
+        got.append(f"{r}|{'+'.join(f'{a}.{b}' for a, b in sorted(marks)) or '-'}")
+        depth = max(depth, len(marks))
+        for x in insts:
+            x.__cache__.clear()
+    ctx.case({"marks": _canon(w)}, nontrivial=any(c["impl"][0] == "a" and c["e"] is None for row in w["cells"] for c in row))
+    ctx.count("marks-worlds")
+    ctx.count("marks-world:" + w.get("shape", "corpus"))
+    for t in got:
+        ctx.count("marks-read:" + ("AttributeError" if t.startswith("E|") else "value"))
+    if ctx.model_available:
+        lines.append(_marks_line(w))
+        pending.append(("marks", ";".join(got), {"marks": w}))
+
+
+# ---------------------------------------------------------------------------------------------------------------
 # the oracle on one solve call (from the property text)
 # ---------------------------------------------------------------------------------------------------------------
 
@@ -1295,6 +1588,14 @@ def compare_model(ctx, kind, ans, item):
             ctx.disagreement(f"{rp['pass_body']}: input the memoised geometry was built from, per loop body: model {ans!r}, "
                              f"implementation {got!r}", rp)
         return
+    if kind == "marks":
+        _, got, rp = item
+        if ans == got:
+            ctx.validated()
+        else:
+            ctx.disagreement(f"nested hook reads on {rp['marks']['ni']} hook hosts, per read value|marks left: model {ans!r}, "
+                             f"implementation {got!r}", rp)
+        return
     if kind == "sub":
         _, got, rp = item
         if ans == got:
@@ -1339,7 +1640,7 @@ def compare_model(ctx, kind, ans, item):
 # ---------------------------------------------------------------------------------------------------------------
 
 CURATED = ("roll_force", "roll_torque", "power", "strain", "length", "t", "temperature", "flow_stress", "velocity",
-           "strain_rate", "width", "surface_temperature", "core_temperature")
+           "strain_rate", "width", "surface_temperature", "core_temperature", "grain_size")
 
 
 def walk_units(u, path="S"):
@@ -1637,6 +1938,7 @@ def run_case(ctx, case, lines, pending):
         for path, u in walk_units(A):
             ctx.count("unit-type:" + type(u).__qualname__)
         check_frames(ctx, case, a1.frames, lines, pending, "fresh")
+        check_marks(ctx, case, reg, A, "fresh")
         if a1.warned:
             ctx.count("run-warned")
         ctx.sample({"units": [u["type"] + (":" + u["groove"] if "groove" in u else "") for u in case["units"]],
@@ -1671,6 +1973,46 @@ def run_case(ctx, case, lines, pending):
                 check_within(ctx, case, "resolve-not-within-precision", "second solve of the same sequence vs the first",
                              a1, a2, a1.frames + a2.frames)
                 ctx.count("resolve-compared")
+            check_marks(ctx, case, reg, A, "resolve")
+        # ---- OTHER sequences solved in the same process (same registered implementations) in between: "an identical fresh
+        # sequence solved with the same input gives identical results, solving the same sequence again gives results within
+        # the precision" - whatever else the process has solved meanwhile (state left behind in the hook machinery, in
+        # class-level memos, in the logging set-up ... by an earlier solve is exactly what `reproducible` excludes)
+        if case.get("others") and a2.err is None:
+            for j, other in enumerate(case["others"]):
+                # (a list of units, or {"units": ..., "in_without": name of a value its incoming profile does not carry})
+                oc = dict(case, units=other["units"] if isinstance(other, dict) else other)
+                oc.pop("alone", None)
+                without = other.get("in_without") if isinstance(other, dict) else None
+                try:
+                    O = build_sequence(oc)
+                except Exception as e:
+                    if not _from_pyroll(e):
+                        raise
+                    ctx.count("other-unbuildable:" + type(e).__name__)
+                    continue
+                o1 = solve_rec(rec, O, ip(without=without))
+                ctx.count("other-solved" if o1.err is None else "other-unsolvable:" + type(_root_cause(o1.err)).__name__)
+                check_frames(ctx, case, o1.frames, lines, pending, f"other-{j}")
+                check_marks(ctx, case, reg, O, f"other-{j}")
+            B = build_sequence(case)
+            b1 = solve_rec(rec, B, ip())
+            d = ("raised " + repr(b1.err)) if b1.err is not None else (diff_frames(a1.frames, b1.frames) or diff_bits(a1.snap, b1.snap))
+            if d:
+                report(ctx, "fresh-after-other-differs-from-fresh", "identical fresh sequence, same input, solved after other "
+                       f"sequences had been solved in the same process: {d}", {"case": case})
+            check_frames(ctx, case, b1.frames, [], [], "fresh-after-other")
+            a3 = solve_rec(rec, A, ip())
+            check_frames(ctx, case, a3.frames, lines, pending, "resolve-after-other")
+            if a3.err is not None:
+                if not a1.warned and not a2.warned:
+                    report(ctx, "resolve-after-other-raises", f"the sequence solved twice before, solved again after other sequences "
+                           f"had been solved in the same process, raised {a3.err!r}", {"case": case})
+            elif not a1.warned and not a2.warned and not a3.warned:
+                check_within(ctx, case, "resolve-after-other-not-within-precision", "the same sequence solved again after other "
+                             "sequences had been solved in the same process vs its previous solve", a2, a3, a2.frames + a3.frames)
+                ctx.count("resolve-after-other-compared")
+            check_marks(ctx, case, reg, A, "resolve-after-other")
         # ---- the same sequence solved again with a CHANGED incoming profile vs a fresh sequence with that profile.
         # INFORMATIONAL, never a violation: the statement speaks of "the same input" and of "solving the same sequence again";
         # that a USED sequence given ANOTHER input ends like a fresh one is claimed only after an abort (where removing the
@@ -1741,6 +2083,26 @@ def run_case(ctx, case, lines, pending):
                 after_abort(ctx, case, rec, E, e1, a1, ip, lines, pending)
         else:
             ctx.count("fault:no-hook-called")
+
+
+def _marks_of(hf):
+    """the re-entrancy marks of one hook function (`None`: the store is not where the harness looks for it)"""
+    m = getattr(hf, "_active_instances", None)
+    return m if isinstance(m, (set, frozenset, list, tuple, dict)) else None
+
+
+def check_marks(ctx, case, reg, seq, tag):
+    """K, `solve_leaves_no_mark`: the model says that a completed solve leaves no re-entrancy mark on any hook function -
+    compared on the registered implementations that read their own hook on other instances (if any) and on every hook
+    function (the core's own among them: `Unit.length`, `Unit.duration`, `Transport.length`, the roll's velocities take
+    `cycle`) of the classes involved"""
+    left = [f"{hf.qualname} ({len(_marks_of(hf) or ())})" for hf in reg.cyclers if _marks_of(hf)] + marks_left(seq)
+    ctx.count("marks-after-solve")
+    if left:
+        ctx.disagreement(f"[{tag}] re-entrancy marks after a completed solve: model none (solve_leaves_no_mark), implementation "
+                         f"{sorted(set(left))[:4]}", {"case": case, "run": tag})
+    else:
+        ctx.validated()
 
 
 def after_abort(ctx, case, rec, E, e1, a1, ip, lines, pending):
@@ -1880,6 +2242,34 @@ CORPUS = [
                {"type": "pass", "groove": "oval", "scale": 1.0, "three": True, "disks": 2},
                {"type": "pipe", "duration": 1, "disks": 1}],
      "prec": 1e-5, "max_iter": 100, "via": "kwargs", "fault": {"hook": "unit.power", "type": "Interrupt", "u": 0.6}},
+    # model implementations that read their OWN hook on a neighbouring object (nested evaluations of one hook function on
+    # other instances): transports without an ambient temperature take that of the transport AFTER them (20 K warmer per
+    # section; the downstream neighbour has not been evaluated when the first one asks, so the calls nest); the line itself
+    # nests one level deep, another line solved in between three levels
+    {"in": {"kind": "round", "size": 30e-3, "length": 1, "strain": 0, "flow_stress": 100e6},
+     "models": {"neigh": {"kind": "ambient", "dir": "next", "a": 1.0, "b": 20.0, "rate": 0.05}},
+     "units": [{"type": "transport", "duration": 1.5, "disks": 0},
+               {"type": "transport", "duration": 2, "disks": 0, "env": 600.0},
+               {"type": "pass", "groove": "oval", "scale": 1.0, "disks": 0},
+               {"type": "transport", "duration": 1, "disks": 2, "env": 350.0},
+               {"type": "pass", "groove": "round", "scale": 1.0, "disks": 0}],
+     "others": [[{"type": "pass", "groove": "oval", "scale": 1.0, "disks": 0},
+                 {"type": "transport", "duration": 0.5, "disks": 0},
+                 {"type": "transport", "duration": 0.5, "disks": 1},
+                 {"type": "transport", "duration": 2, "disks": 0},
+                 {"type": "pipe", "duration": 1, "disks": 0, "env": 450.0},
+                 {"type": "pass", "groove": "round", "scale": 1.0, "disks": 0}]],
+     "prec": 1e-3, "max_iter": 100, "via": "config", "fault": {"hook": "unit.out.t", "type": "ValueError", "u": 0.4}},
+    # ... and profiles without a grain size take it from the profile before them (out profile <- in profile <- out profile of
+    # the unit before / in profile of the parent; refined by every pass), the grain size being a persisted result; nested
+    # sequence, disk elements (their profiles ask on to the pass's in profile: three levels)
+    {"in": {"kind": "square", "size": 30e-3, "length": 1, "strain": 0},
+     "models": {"flow_stress": {"beta": 0}, "neigh": {"kind": "grain", "a": 0.8, "b": 1e-6, "root": 50e-6}},
+     "units": [{"type": "pass", "groove": "oval", "scale": 1.0, "disks": 0, "rotation": False}],
+     "others": [[{"type": "pass", "groove": "oval", "scale": 1.0, "disks": 2, "rotation": False},
+                 {"type": "seq", "units": [{"type": "transport", "duration": 1, "disks": 0},
+                                           {"type": "pass", "groove": "round", "scale": 1.0, "disks": 0}]}]],
+     "prec": 1e-4, "max_iter": 100, "via": "kwargs", "fault": {"hook": "pass.roll_force", "type": "KeyError", "u": 0.5}},
 ]
 
 
@@ -1914,6 +2304,10 @@ def run(ctx):
     ctx.notes["within-ratio-max"] = round(ctx.notes.get("within-ratio-max", 0.0), 4)
     if not ctx.model_available:
         return
+    for w in MARKS_CORPUS:
+        run_marks_world(ctx, w, lines, pending)
+    for i in range(ctx.budget(150, 2000)):
+        run_marks_world(ctx, gen_marks_world(ctx.rng), lines, pending)
     wl, wexpect = within_lines(ctx, ctx.budget(300, 3000))
     out = ctx.lean_model(MODEL, lines + wl + ["consts"])
     if len(out) != len(lines) + len(wl) + 1:
@@ -1948,6 +2342,13 @@ def replay(ctx, data):
         run_handover(ctx, r["handover"], lines, pending)
     elif "pass_body" in r or "class" in r:
         run_pass_body(ctx, lines, pending, 1)
+    elif "marks" in r:
+        ctx.model_available = True       # (a K case: the model's answer is what it is compared with)
+        run_marks_world(ctx, r["marks"], lines, pending)
+        for item, ans in zip(pending, ctx.lean_model(MODEL, lines)):
+            compare_model(ctx, item[0], ans, item)
+        for what, _ in ctx.disagreements:
+            print(f"[C05 replay] disagreement: {what}")
     elif "subunits" in r:
         run_subunit_wrap(ctx, [tuple(x) for x in r["subunits"]], lines, pending)
     elif "case" in r:
